@@ -42,6 +42,16 @@ def build_inputs(case: Dict[str, Any]):
     from ..gen.schema import generate_schema
 
     dirty = set(case.get("dirty", []))
+    if case.get("_sdl") and case.get("_queries") is not None:
+        # replay of a recorded witness: the stored texts are the case (generators may have changed since it was recorded)
+        from graphql import OperationDefinitionNode
+        sdl = case["_sdl"]
+        schema_ref = build_schema(sdl)
+        defs = [d for d in case["_queries"].split("\n\n") if d.strip()]
+        frs = [d for d in defs if d.lstrip().startswith("fragment")]
+        ops = [d for d in defs if not d.lstrip().startswith("fragment")]
+        names = [d.name.value for d in parse(case["_queries"]).definitions if isinstance(d, OperationDefinitionNode) and d.name]
+        return sdl, frs, ops, names, set(case.get("_features", [])), schema_ref
     s = case["seed"] * 100003 + case["idx"]
     spec, sfeats, _ = generate_schema(s, dirty, size=case.get("size", "m"))
     sdl = spec.sdl()
@@ -558,8 +568,7 @@ def run_shared(prop: str, tier: str, seed: int, n_cases: int, rule: str, floors:
 
 
 def replay_shared(prop: str, data) -> int:
-    case = data["case"]
-    case = {k: v for k, v in case.items() if not k.startswith("_")}
+    case = dict(data["case"])
     case["props"] = [prop]
     res = core.run_forked([case], worker)[0]
     print("status:", res.status, res.note)
